@@ -307,7 +307,9 @@ def r4_validators(ctx, E, ctor):
         else:
             ctx.violation("C18.R4", "C18.R4|%s" % m, "%s() returns %s, not the value captured at construction" % (m, short(v, 80)))
     # etag
-    outs = ctx.px(E["etag"])
+    # helpers of the formatting (e.g. a method on the captured file-info record, possibly in another module) are expanded
+    from .common import helper_inline
+    outs = ctx.px(E["etag"], inline=helper_inline(ctx), key="helpers")
     sites = CEN.census(ctx, outs, typelevel=_etag_tl)
     for key, s in sorted(sites.items()):
         if s.failed:
